@@ -16,6 +16,7 @@ import (
 func init() {
 	vRegister("VerifC12Local", VerifC12Local)
 	vRegister("VerifC12Demangle", VerifC12Demangle)
+	vRegister("VerifC12DemangleProfile", VerifC12DemangleProfile)
 }
 
 var errVerif = errors.New("no such file")
@@ -82,13 +83,20 @@ func (f *vObjFile) SourceLine(addr uint64) ([]plugin.Frame, error) {
 func VerifC12Local() {
 	m0 := &profile.Mapping{ID: 1, Start: vUint64("m0start"), Limit: vUint64("m0limit"), Offset: vUint64("m0off"), File: "bin"}
 	m1 := &profile.Mapping{ID: 2, Start: vUint64("m1start"), Limit: vUint64("m1limit"), File: []string{"lib", ""}[vChoice("m1file", 2)], BuildID: []string{"", "bid"}[vChoice("m1bid", 2)]}
-	m1.HasFunctions = vChoice("m1sym", 2) == 1
+	switch vChoice("m1sym", 4) { // which has-symbols flag marks m1 as already symbolized
+	case 1:
+		m1.HasFunctions = true
+	case 2:
+		m1.HasFilenames = true
+	case 3:
+		m1.HasLineNumbers = true
+	}
 	// an already present function with an arbitrary (valid) id, used by the symbolized mapping
 	f0 := &profile.Function{ID: vUint64("f0id"), Name: "old", SystemName: "old"}
 	vAssume(f0.ID != 0)
 	l0 := &profile.Location{ID: 1, Mapping: m0, Address: vUint64("l0addr")}
 	l1 := &profile.Location{ID: 2, Mapping: m1, Address: vUint64("l1addr")}
-	if m1.HasFunctions {
+	if m1.HasFunctions || m1.HasFilenames || m1.HasLineNumbers {
 		l1.Line = []profile.Line{{Function: f0, Line: 7}}
 	}
 	p := &profile.Profile{
@@ -106,7 +114,7 @@ func VerifC12Local() {
 	a0, a1 := l0.Address, l1.Address
 	s0, e0, o0, s1, e1 := m0.Start, m0.Limit, m0.Offset, m1.Start, m1.Limit
 	force := vChoice("force", 2) == 1
-	hadSymbols := m1.HasFunctions
+	hadSymbols := m1.HasFunctions || m1.HasFilenames || m1.HasLineNumbers
 	err := doLocalSymbolize(p, false, force, &vObjTool{}, &vUI{})
 	vReach("C12.local:done")
 	vAssert(err == nil, "C12.local.err: local symbolization failed although every plug-in error is recoverable")
@@ -122,6 +130,28 @@ func VerifC12Local() {
 		vAssert(false, "C12.local.valid: symbolized profile is not valid (duplicate or dangling ids)")
 	}
 	vObserve(len(p.Function), len(l0.Line), len(l1.Line))
+}
+
+// VerifC12DemangleProfile: Demangle over a profile, forced or not, in every
+// mode, never replaces a non-empty name by an empty one.
+func VerifC12DemangleProfile() {
+	namePool := []string{"", "f", "_Z3foov", "<>", "a::b(int)"}
+	sysPool := []string{"", "f", "_Z3foov", "_Z3barv"}
+	var fns []*profile.Function
+	for i := 0; i < 2; i++ {
+		fns = append(fns, &profile.Function{ID: uint64(i + 1), Name: namePool[vChoice("name"+strconv.Itoa(i), len(namePool))], SystemName: sysPool[vChoice("sys"+strconv.Itoa(i), len(sysPool))]})
+	}
+	before := []string{fns[0].Name, fns[1].Name}
+	p := &profile.Profile{Function: fns}
+	force := vChoice("force", 2) == 1
+	mode := []string{"", "templates", "full", "none"}[vChoice("mode", 4)]
+	Demangle(p, force, mode)
+	for i, f := range fns {
+		if before[i] != "" {
+			vAssert(f.Name != "", "C12.demangleprofile.empty: Demangle replaced a non-empty name by an empty one")
+		}
+		vObserve(f.Name)
+	}
 }
 
 // VerifC12Demangle: demangling never turns a non-empty name into an empty one.
